@@ -48,11 +48,12 @@ def load_known():
         rest = line[len("finding:"):].strip()
         d = {}
         # property=<id> obligation=<id> what=<free text to end of line>
-        for key in ("property", "obligation"):
-            i = rest.index(key + "=") + len(key) + 1
-            j = rest.index(" ", i) if " " in rest[i:] else len(rest)
-            d[key] = rest[i:j]
-        d["what"] = rest[rest.index("what=") + 5:] if "what=" in rest else ""
+        i = rest.index("property=") + 9
+        d["property"] = rest[i:rest.index(" ", i)]
+        i = rest.index("obligation=") + 11
+        j = rest.index(" what=", i) if " what=" in rest[i:] else len(rest)
+        d["obligation"] = rest[i:j]  # may contain spaces (vocabulary phrases)
+        d["what"] = rest[j + 6:] if j < len(rest) else ""
         findings.append(d)
     return findings
 
